@@ -22,6 +22,7 @@ import (
 	"syscall"
 	"time"
 
+	"github.com/go-python/gpython/compile"
 	"github.com/go-python/gpython/py"
 	_ "github.com/go-python/gpython/stdlib"
 	"github.com/go-python/gpython/vm"
@@ -139,6 +140,133 @@ func c12Kind(o py.Object) string {
 	return "O"
 }
 
+
+// ---- family `asm`: the real assembler on a hand-built instruction stream
+
+func c12AsmSummary(bs []byte) string {
+	h := uint64(7)
+	for _, b := range bs {
+		h = (h*131 + uint64(b) + 1) % 2147483647
+	}
+	n := len(bs)
+	if n > 48 {
+		n = 48
+	}
+	return fmt.Sprintf("len=%d h=%d head=%s", len(bs), h, hex.EncodeToString(bs[:n]))
+}
+
+// decode the operand the emitted bytes of one instruction carry (EXTENDED_ARG prefix included)
+func c12AsmArg(out []byte) (uint32, bool) {
+	switch len(out) {
+	case 3:
+		return uint32(out[1]) | uint32(out[2])<<8, true
+	case 6:
+		if vm.OpCode(out[0]) != vm.EXTENDED_ARG {
+			return 0, false
+		}
+		return uint32(out[4]) | uint32(out[5])<<8 | uint32(out[1])<<16 | uint32(out[2])<<24, true
+	}
+	return 0, false
+}
+
+func c12Asm(line string) (string, string) {
+	var is compile.Instructions
+	labels := map[int]*compile.Label{}
+	label := func(id int) *compile.Label {
+		if l, ok := labels[id]; ok {
+			return l
+		}
+		l := new(compile.Label)
+		labels[id] = l
+		return l
+	}
+	num := func(s string) (int, int) {
+		parts := strings.SplitN(s, ":", 2)
+		a, err := strconv.Atoi(parts[0])
+		if err != nil {
+			panic("bad asm token " + s)
+		}
+		b := 0
+		if len(parts) == 2 {
+			if b, err = strconv.Atoi(parts[1]); err != nil {
+				panic("bad asm token " + s)
+			}
+		}
+		return a, b
+	}
+	for _, tok := range strings.Fields(line) {
+		a, b := num(tok[1:])
+		switch tok[0] {
+		case 'o':
+			is.Add(&compile.Op{Op: vm.OpCode(a)})
+		case 'a':
+			is.Add(&compile.OpArg{Op: vm.OpCode(a), Arg: uint32(b)})
+		case 'l':
+			is.Add(label(a))
+		case 'J':
+			is.Add(&compile.JumpAbs{OpArg: compile.OpArg{Op: vm.OpCode(a)}, Dest: label(b)})
+		case 'j':
+			is.Add(&compile.JumpRel{OpArg: compile.OpArg{Op: vm.OpCode(a)}, Dest: label(b)})
+		case 'p':
+			for k := 0; k < a; k++ {
+				is.Add(&compile.OpArg{Op: vm.LOAD_CONST, Arg: 0})
+			}
+		default:
+			panic("bad asm token " + tok)
+		}
+	}
+	code, asmPanic := "", ""
+	func() {
+		defer func() {
+			if e := recover(); e != nil {
+				asmPanic = fmt.Sprint(e)
+			}
+		}()
+		code = is.Assemble()
+	}()
+	depth := "panic"
+	func() {
+		defer func() { _ = recover() }()
+		depth = strconv.Itoa(is.StackDepth())
+	}()
+	if asmPanic != "" {
+		// nothing was emitted: C12 (a property of emitted code) holds vacuously; the message is compared with the model
+		return "ok", "panic:" + asmPanic + " depth=" + depth
+	}
+	// SPEC, checked on the emitted bytes only (Output() in stream order): offsets are the running sum of the
+	// emitted sizes, and every jump's operand designates the offset of its label
+	offs := make([]uint32, len(is))
+	lab := map[*compile.Label]uint32{}
+	off := uint32(0)
+	for k, in := range is {
+		offs[k] = off
+		if l, ok := in.(*compile.Label); ok {
+			lab[l] = off
+		}
+		off += uint32(len(in.Output()))
+	}
+	v := "ok"
+	if int(off) != len(code) {
+		v = fmt.Sprintf("BADASM total size %d != len(code) %d", off, len(code))
+	}
+	for k, in := range is {
+		out := in.Output()
+		switch j := in.(type) {
+		case *compile.JumpAbs:
+			arg, ok := c12AsmArg(out)
+			if want, placed := lab[j.Dest]; !ok || !placed || arg != want {
+				v = fmt.Sprintf("BADASM item %d: absolute jump operand %d, label at %d", k, arg, want)
+			}
+		case *compile.JumpRel:
+			arg, ok := c12AsmArg(out)
+			if want, placed := lab[j.Dest]; !ok || !placed || offs[k]+uint32(len(out))+arg != want {
+				v = fmt.Sprintf("BADASM item %d: relative jump lands on %d, label at %d", k, offs[k]+uint32(len(out))+arg, want)
+			}
+		}
+	}
+	return v, c12AsmSummary([]byte(code)) + " depth=" + depth
+}
+
 func init() {
 	handlers["C12"] = func(args []string) handler {
 		if len(args) < 1 {
@@ -208,6 +336,8 @@ func init() {
 			var src, desc string
 			isFile := false
 			switch {
+			case strings.HasPrefix(line, "A "):
+				return c12Asm(line[2:])
 			case strings.HasPrefix(line, "F file "):
 				isFile = true
 				desc = strings.TrimSpace(line[7:])
